@@ -126,10 +126,10 @@ NumOf(v) ==
 \* does the value read as a number (ExpressionUtility.is_one_of(v, [int]) without the None case)
 NumLike(v) == v.t \in {"int", "float"} \/ (v.t = "str" /\ IsIntText(v.s))
 
-\* Python == between two values of the model (int 3 == float 3.0 == True is NOT needed: bools are
-\* never compared with numbers by the generators)
+\* Python == between two values of the model
+NumOrBool(v) == v.t \in {"int", "float", "bool"}     \* Python: True == 1 == 1.0
 PyEq(a, b) ==
-  IF IsNum(a) /\ IsNum(b) THEN a.i = b.i
+  IF NumOrBool(a) /\ NumOrBool(b) THEN a.i = b.i
   ELSE a.t = b.t /\ a = b
 
 \* the language's '==' : stripped string forms equal, else Python equality
